@@ -111,6 +111,8 @@ def run(ctx):
                 got = ('rt', e.pos.line if e.pos else None, e.pos.filename if e.pos else None, list(e.stacktrace))
             except CklSyntaxError as e:
                 got = ('syn', e.pos.line if e.pos else None, e.pos.filename if e.pos else None, [])
+            except core.Timeout:
+                got = ('timeout',)
             except Exception as e:  # noqa
                 got = ('host', type(e).__name__)
             rp = {"op": "fault", "src": text, "fault": " ".join(ftoks), "expected_line": want}
